@@ -170,6 +170,8 @@ class ClassMap:
             else:
                 mod = root + ("." + fd.package if fd.package else "")
             for kind, path, d in walk(fd):
+                if kind == "message" and d.options.map_entry:
+                    continue          # no class is generated for a synthetic map entry type: it must not claim a class name
                 full = "." + ".".join(([fd.package] if fd.package else []) + path)
                 self.by_class[(mod, Naming.cls(flat(path)))] = full
 
@@ -481,8 +483,9 @@ def check_generated(chk, drv, g, protos, label, src="generated"):
                 if t is None:
                     continue
                 ex, got, reg = t
-                if reg & {"field-name-collision", "builtin-shadowed"}:
-                    # Python's class-scope shadowing / field replacement is not part of the model
+                if reg & {"field-name-collision", "builtin-shadowed"} or "Field(name=" in got:
+                    # Python's class-scope shadowing / field replacement is not part of the model (D33: the evaluated hint
+                    # contains a dataclass Field object where a builtin type was meant — the observation itself shows it)
                     chk.count("corr_skipped_in_known_region")
                     continue
                 if fl["meta"] != got:
